@@ -18,12 +18,17 @@ def main():
     r = sub.add_parser("replay")
     r.add_argument("path")
     sub.add_parser("setup")
+    st = sub.add_parser("selftest")
+    st.add_argument("--only", default=None)
     a = ap.parse_args()
     if a.cmd == "setup":
         frontend.ensure_tool()
         frontend.build_facts()
         print("setup ok")
         return 0
+    if a.cmd == "selftest":
+        from vf_lib import selftest
+        return selftest.main(a.only)
     if a.cmd == "replay":
         rec = json.load(open(a.path))
         pid, key = rec["property"], rec["obligation"]["key"]
@@ -52,6 +57,11 @@ def main():
             return chk.finish()
         except frontend.AnalysisBroken as x:
             print("ANALYSIS-BROKEN property=%s %s" % (pid, x))
+            return 2
+        except Exception as x:   # a crash of the checker is never a verdict
+            import traceback
+            traceback.print_exc()
+            print("ANALYSIS-BROKEN property=%s internal error: %r" % (pid, x))
             return 2
     ap.print_help()
     return 2
